@@ -80,6 +80,8 @@ def main():
             res.add_cov(leanchecker="ok" if rc == 0 else "FAILED")
             if rc != 0:
                 broken.append({"kind": "leanchecker", "out": lo[-1500:]})
+        if ok:
+            C.snapshot_driver()
         pipeline.__exit__()
         # 3. correspondence (and, if something is broken, the failing-input search)
         mod.run(res, a.tier, broken)
